@@ -221,6 +221,7 @@ fn load_corpus() -> Vec<(String, String)> {
 
 struct Budget {
     corpus_opts: usize,
+    n_mixed: usize,
     n_generated: usize,
     n_keys: usize,
     max_corpus_bytes: usize,
@@ -274,6 +275,30 @@ fn build_cases(seed: u64, tier: Tier, b: &Budget) -> Vec<Case> {
             });
             id += 1;
         }
+    }
+    // (c) repository grammars combined with a generated tie-oriented sub-grammar
+    let small: Vec<&(String, String)> = corpus.iter().filter(|(n, t)| t.len() < 6_000 && !heavy.contains_key(n)).collect();
+    for n in 0..b.n_mixed {
+        let mut rng = Rng::for_run(seed, ENGINE_ID, (2u64 << 32) + n as u64);
+        if small.is_empty() {
+            break;
+        }
+        let (name, ctext) = *rng.pick(&small);
+        let g = gen::generate(&mut rng);
+        let Some(text) = gen::mix_with_corpus(ctext, &g) else { continue };
+        let mut opts = draw_opts(&mut rng, tier == Tier::Thorough);
+        opts.max_k = opts.max_k.clamp(2, 4);
+        let keys = (0..b.n_keys).map(|_| (rng.next_u64(), rng.next_u64())).collect();
+        cases.push(Case {
+            id,
+            origin: format!("mix:{n}:{name}"),
+            text,
+            opts,
+            gram: None,
+            designed_ties: g.designed_ties,
+            keys,
+        });
+        id += 1;
     }
     for n in 0..b.n_generated {
         let mut rng = Rng::for_run(seed, ENGINE_ID, (1u64 << 32) + n as u64);
@@ -599,12 +624,14 @@ fn budget_for(tier: Tier) -> Budget {
     match tier {
         Tier::Quick => Budget {
             corpus_opts: 1,
+            n_mixed: (100.0 * scale) as usize,
             n_generated: (500.0 * scale) as usize,
             n_keys: 10,
             max_corpus_bytes: 60_000,
         },
         Tier::Thorough => Budget {
             corpus_opts: 3,
+            n_mixed: (1500.0 * scale) as usize,
             n_generated: (6000.0 * scale) as usize,
             n_keys: 32,
             max_corpus_bytes: 400_000,
